@@ -1,7 +1,7 @@
 #!/usr/bin/python3
 """Stand-in for rsync / bbcp in the simulated world (all 'hosts' share one file system).
 Behaviour is scripted by the JSON file named in $VERIF_TOOLS_CONF: {"rsync": {"mode": ...}, "bbcp": {"mode": ...}}.
-modes: ok | fail | mkstemp | write_failed | truncate | garbled | wrong_md5 | die_tmp | die_partial"""
+modes: ok | fail | mkstemp | write_failed | truncate | garbled | wrong_md5 | die_tmp | die_partial | hang"""
 import hashlib
 import json
 import os
@@ -25,6 +25,11 @@ log = os.environ.get("VERIF_TOOLS_LOG")
 if log:
     with open(log, "a") as f:
         f.write(json.dumps({"tool": tool, "mode": mode, "src": src, "dst": dst}) + "\n")
+if mode == "hang":  # never finishes: the caller's time-out kills it
+    import time
+
+    time.sleep(30)
+    sys.exit(1)
 if mode == "fail":
     sys.stderr.write(f"{tool}: link_stat \"{src}\" failed: No such file or directory (2)\n")
     sys.exit(23)
